@@ -7,8 +7,8 @@ use std::collections::BTreeMap;
 use std::sync::{Arc, Mutex};
 
 #[derive(Clone, Copy, Debug)]
-enum Op { /** scale: 300 attach/remove rounds of a device on a free port (ids are never reused, so later ids pass 2^8) */ Churn, /** the library's own NullDevice (answers nothing) attached to ports */ AddNull(&'static [u16]), Add(&'static [u16]), Remove(u16), SetKb, SetDisp, Mmap(u16, bool), Munmap(u16), Read(u16), Write(u16) }
-const OPS: [Op; 36] = [
+enum Op { /** scale: 300 attach/remove rounds of a device on a free port (ids are never reused, so later ids pass 2^8) */ Churn, /** the library's own NullDevice (answers nothing) attached to ports */ AddNull(&'static [u16]), Add(&'static [u16]), Remove(u16), SetKb, SetDisp, Mmap(u16, bool), Munmap(u16), Read(u16), Write(u16), /** the stored word is not (fully) initialised, as a register or memory word that was never written is */ WriteUninit(u16) }
+const OPS: [Op; 38] = [
     Op::Churn, Op::AddNull(&[0xFE16]), Op::AddNull(&[0xFE10, 0xFE18]), Op::Add(&[0xFE16]),
     Op::Add(&[0xFE10]), Op::Add(&[0xFE12]), Op::Add(&[0xFE10, 0xFE12]), Op::Add(&[0xFE00]), Op::Add(&[0x3000]), Op::Add(&[]), Op::Add(&[0xFE12, 0xFE12]), Op::Add(&[0xFE14, 0xFE06]),
     Op::Remove(0), Op::Remove(1), Op::Remove(2), Op::Remove(3), Op::Remove(4), Op::Remove(5),
@@ -19,6 +19,7 @@ const OPS: [Op; 36] = [
     Op::Write(0xFE10), Op::Write(0xFE00),
     // the last I/O address
     Op::Add(&[0xFFFF]), Op::Read(0xFFFF), Op::Write(0xFFFF),
+    Op::WriteUninit(0xFE10), Op::WriteUninit(0xFE12),
 ];
 const PROBES: [u16; 10] = [0xFE00, 0xFE02, 0xFE06, 0xFE10, 0xFE12, 0xFE14, 0xFE16, 0xFE18, 0xFFFC, 0xFFFF];
 
@@ -137,10 +138,11 @@ fn apply(w: &mut World, op: Op) -> Result<(), (String, String)> {
             if got != exp { return Err(("read-value".into(), format!("{what}: read x{got:04X}, expected x{exp:04X} (internal mappings {:x?}, owners {:x?})", w.model.iregs, w.model.owner))); }
             expect_calls = calls;
         }
-        Op::Write(a) => {
+        Op::Write(a) | Op::WriteUninit(a) => {
             let v = 0xA000 | (before_log as u16 & 0xFF);
             let mirror = w.sim.mem[a];
-            w.sim.write_mem(a, Word::new_init(v), priv_ctx()).map_err(|e| ("write-error".to_string(), format!("{what}: {e:?}")))?;
+            let word = if matches!(op, Op::WriteUninit(_)) { Word::verif_from_parts(v, 0x0F00) } else { Word::new_init(v) };
+            w.sim.write_mem(a, word, priv_ctx()).map_err(|e| ("write-error".to_string(), format!("{what}: {e:?}")))?;
             if let Some(pc) = w.model.iregs.get(&a) {
                 // the internal register received the value: restore the recognisable value afterwards
                 let now = if *pc { w.sim.pc } else { w.sim.read_mem(a, MemAccessCtx::omnipotent()).map(|x| x.get()).unwrap_or(0) };
